@@ -42,7 +42,7 @@ PROP = {
         "error classes are read off the Display prefix of the error enums: Session/Database::execute hand every error through the task runner as a string",
         "kept out of generation (other properties' territory, each reproduced by hand): NULL in a UNIQUE column, UPDATE of a UNIQUE column, "
         "two open transactions inserting the same unique key (C07); UPDATE on a table with a unique index, which fails with a spurious type error after applying the update (index maintenance)",
-        "commit validation is modelled on the intended design (write sets against the commits since begin); the shipped code never records a write, so this part of the model is tied to the code only through the `writeSetNeverRecorded` finding",
+        "commit validation is modelled on the intended design (write sets against the commits since begin); since fix 4697923 the code records the (table, row) of every insert / update / delete and refuses the second committer (finding writeSetNeverRecorded: fixed), so the model's validation is now compared with the code on every concurrent-writer case",
     ],
     "partial": "",
     "trusted": ["one history is executed from a single thread: the interleaving is exactly the op order of the case line"],
@@ -57,7 +57,7 @@ TEXT = {
             "~1 700 (quick) / ~45 000 (thorough) generated multi-session histories run through the public API.",
     "design_ref": "DESIGN.md §5 C04/C03",
     "note": "Holds for the specification model only: the shipped code stamps UPDATEd versions with the inserter's id (pinned by "
-            "test_session_rollback_updates), never records write sets and has a single delete-mark slot — three listed findings with "
+            "test_session_rollback_updates), has a single delete-mark slot — listed findings with "
             "exact attribution (the model with the flag on predicts the implementation's wrong answer). Three further defects were "
             "repaired by fix: commits (snapshot xmax None, own delete resurrected by the delta walk, stale delete mark).",
     "technique": "Lean 4 refinement proof (invariant + simulation by induction over the history) + differential correspondence with the real sessions",
